@@ -913,6 +913,31 @@ func (e *SpecEnv) call(s *SExpr) SVal {
 				return SVal{nt, nil}
 			}
 			return SVal{t, nil}
+		case "holds":
+			// holds(p): the mutex of the guarded object *p is held exclusively by the current call
+			evalArgs()
+			a := args[0]
+			pt, ok := under(a.GT).(*types.Pointer)
+			if !ok {
+				e.fail("holds: argument is not a pointer")
+			}
+			named, ok := pt.Elem().(*types.Named)
+			if !ok || named.Obj().Pkg() == nil || e.u.eng.cs.Guards[named.Obj().Pkg().Path()+"."+named.Obj().Name()] == nil {
+				e.fail("holds: %s is not a guarded type", pt.Elem())
+			}
+			key := "lock:" + (&Loc{Kind: "heap", Ptr: a.T, Root: pt.Elem(), Path: []PathElem{{Field: 0}}}).String()
+			if held, ok := e.cur.cells[key].(Term); ok {
+				return SVal{Eq(held, IntLit(2)), boolT}
+			}
+			if e.x != nil && e.cur == e.x.entry {
+				// a precondition: the lock state at entry is a symbolic value
+				held := w.Const("held."+sanitize(key), SInt)
+				e.u.AssumeRaw(And(Ge(held, IntLit(0)), Le(held, IntLit(2))))
+				e.cur.cells[key] = held
+				e.u.lockKeys[key] = true
+				return SVal{Eq(held, IntLit(2)), boolT}
+			}
+			return SVal{TFalse, boolT}
 		case "seqlen":
 			evalArgs()
 			return SVal{w.UF("sq.len", SInt, args[0].T), intT}
